@@ -2,8 +2,32 @@
 
 package processor
 
+import "github.com/siglens/siglens/pkg/segment/query/iqr"
+
 // VerifSetMergeSettings is what NewQueryProcessor's chainFactory does after
 // AggsToDataProcessors (C06: chains built through the real planner).
 func VerifSetMergeSettings(chain []*DataProcessor) {
 	_ = setMergeSettings(chain)
+}
+
+// VerifNewOrderedMergerDP builds the merger DataProcessor that SetupQueryParallelism puts
+// behind parallel sort chains: several input streams, each ordered by the numeric column
+// `field` ascending, merged under a row limit (C06: several upstream streams, one or two passes).
+func VerifNewOrderedMergerDP(field string, limit uint64) *DataProcessor {
+	less := func(a, b *iqr.Record) bool {
+		va, errA := a.ReadColumn(field)
+		vb, errB := b.ReadColumn(field)
+		if errA != nil || errB != nil {
+			return errB != nil && errA == nil
+		}
+		fa, errA := va.GetFloatValue()
+		fb, errB := vb.GetFloatValue()
+		if errA != nil || errB != nil {
+			return errB != nil && errA == nil
+		}
+		return fa < fb
+	}
+	ms := mergeSettings{less: less}
+	ms.limit.Set(limit)
+	return NewMergerDP(ms)
 }
